@@ -2,6 +2,7 @@ package props
 
 import (
 	"go/ast"
+	"go/types"
 
 	"zverif/checker/an"
 )
@@ -27,6 +28,25 @@ func c34(p *an.Prog, r *an.R, tier string) {
 		fname := an.FuncName(f)
 		r.Fn(fname)
 		info := d.Pkg.TypesInfo
+		// the body that contains the mutating calls: the entry point itself, or the helper of the package it
+		// was split into (validation and mutation then both live there)
+		hasMut := func(x *an.DeclInfo) bool {
+			for _, m := range spec.mutate {
+				if mf := p.Func(lsync, m); mf != nil && len(an.CallsTo(info, x.Decl.Body, false, mf)) > 0 {
+					return true
+				}
+			}
+			return false
+		}
+		entry := d
+		if !hasMut(d) {
+			for _, x := range calleeDecls(p, d) {
+				if x != d && hasMut(x) {
+					d = x
+					r.Fn(lsync + "." + x.Decl.Name.Name)
+				}
+			}
+		}
 		g := an.NewG(info, d.Decl.Body)
 		var targets []an.Loc
 		for _, m := range spec.mutate {
@@ -45,8 +65,21 @@ func c34(p *an.Prog, r *an.R, tier string) {
 				continue
 			}
 			isV := g.HasCallTo(vf)
+			// a validation that stayed in the entry point, before the call of the helper, counts as well
+			doneInEntry := false
+			if d != entry {
+				eg := an.NewG(info, entry.Decl.Body)
+				hobj, _ := info.Defs[d.Decl.Name].(*types.Func)
+				calls := eg.Locs(func(n ast.Node) bool { return hobj != nil && len(an.CallsTo(info, n, false, hobj)) > 0 })
+				doneInEntry = len(calls) > 0
+				for _, cl := range calls {
+					if eg.Reach(eg.Entry(), false, &an.Search{Target: func(l an.Loc) bool { return l == cl }, Cut: eg.HasCallTo(vf)}) {
+						doneInEntry = false
+					}
+				}
+			}
 			for _, t := range targets {
-				skip := g.Reach(g.Entry(), false, &an.Search{Target: func(l an.Loc) bool { return l == t }, Cut: isV})
+				skip := !doneInEntry && g.Reach(g.Entry(), false, &an.Search{Target: func(l an.Loc) bool { return l == t }, Cut: isV})
 				r.Check(!skip, "C34.R1", fname+"/"+v+"/precedes-mutation", g.Node(t).Pos(), v+" runs before any shard is removed or written", "a shard-mutating call is reachable without "+v+" having run: a name/source conflict is detected only after the index was changed (or not at all)")
 			}
 		}
